@@ -424,6 +424,11 @@ fn resolve_instruction_match_inner(
                     arg_value,
                     param.typ)?;
 
+                if constrained_arg_value.should_propagate()
+                {
+                    return Ok(constrained_arg_value);
+                }
+
                 eval_ctx.set_local(
                     &param.name,
                     constrained_arg_value);
